@@ -22,7 +22,8 @@ def run_one(mid, tier='quick'):
         return dict(id=mid, property=pid, detected=None, note='patch does not apply: ' + r.stdout[-300:])
     shutil.copytree(os.path.join(ROOT, 'harness'), hd, ignore=shutil.ignore_patterns('target'))
     ct = os.path.join(hd, 'Cargo.toml')
-    open(ct, 'w').write(open(ct).read().replace('"/repo', '"' + wt))
+    txt = open(ct).read().replace('"/repo', '"' + wt)
+    open(ct, 'w').write(txt)
     env = dict(os.environ, VERIF_REPO_DIR=wt, VERIF_HARNESS_DIR=hd, VERIF_EVIDENCE_DIR=ev)
     t0 = time.time()
     r = sh('./vp/check %s --tier %s' % (pid, tier), cwd=ROOT, env=env, timeout=3600)
